@@ -673,7 +673,7 @@ class Check(PropertyCheck):
     props_module = 'Props.C08'
     models = {'docflow': 'XDocFlow.v'}
     needs_gen = True
-    gen_modules = ['gen_skeleton']
+    gen_modules = ['gen_skeleton', 'gen_c08_code']
     rule = ('(i) fault injection, exhaustive: {epytext, restructuredtext, google, numpy, plaintext, an unknown name} as system '
             'docformat + 4 module-__docformat__ overrides x processtypes on/off x {module, class, function, method, '
             'attribute, property} x docstring {present, absent} x parser {returns, returns with recovered errors, raises '
@@ -689,6 +689,11 @@ class Check(PropertyCheck):
         'Coq 8.16.1 kernel (coqc; vm_compute for the _refuted witnesses, Examples and skeletons_checked; no native_compute)',
         'no axioms (Print Assumptions: Closed under the global context for every theorem)',
         'translator harness/gen/gen_skeleton.py (fail-closed) + the oracle contract `allowed_table` of Gen/Skeleton.v',
+        'translator harness/gen/gen_c08_code.py (fail-closed; bodies of epydoc2stan.reportErrors / parse_docstring / '
+        'ensure_parsed_docstring / safe_to_stan -> Gen/DocFlowCode.v in the statement language of Model/DocFlowIR.v, whose '
+        'interpreter is the stated meaning of the Python constructs; primitives = the library calls listed at the top of '
+        'Model/DocFlowIR.v: get_parser_by_name, the parser call, plaintext.parse_docstring, processtypes, _get_docformat, '
+        'model.get_docstring, to_stan, the fallback callbacks, obj.report, obj.system.msg dropped)',
         'extraction: ExtrOcamlBasic only; OCaml 4.13.1; coq/ocaml/driver.ml',
         'correspondence harness harness/c08.py + harness/impl/c08_docflow.py (stub parsers / ParsedDocstring subclasses '
         'substituted from outside; the derivation of the oracle tables from the stub specifications in class Tables)',
@@ -707,7 +712,10 @@ class Check(PropertyCheck):
         'oracles are deterministic (for ParsedEpytextDocstring.to_node: C08_epytext_to_node_deterministic, since /repo ef2e650)',
     ]
     manifest = {
-        'text': ('Theorems over Model/DocFlow.v (control flow of parse_docstring, reportErrors, ensure_parsed_docstring, safe_to_stan, '
+        'text': ('The bodies of epydoc2stan.reportErrors / parse_docstring / ensure_parsed_docstring / safe_to_stan are re-translated from '
+                 '/repo on every run and C08_code_*_is_model prove that interpreting them IS the model below, for all inputs and oracle '
+                 'behaviours (C08_code_parse_docstring_falls_back restates the fallback on the translated code). '
+                 'Theorems over Model/DocFlow.v (control flow of parse_docstring, reportErrors, ensure_parsed_docstring, safe_to_stan, '
                  'format_docstring/_summary/_toc and their fallbacks, processtypes wrapper, get_summary/get_toc, tail of epytext.parse) '
                  'for EVERY behaviour of the parser/renderer oracles: a parser or type post-processor that raises (ParseError or any '
                  'Exception) yields exactly plaintext(docstring) as body (C08_fallback_is_whole_text), the object lands in '
@@ -723,7 +731,7 @@ class Check(PropertyCheck):
                  'parent\'s cached summary. Fixed in /repo ef2e650 (kept as _old_refuted witnesses): epytext to_node caching an empty '
                  'document before a failing conversion; get_toc letting to_node exceptions escape. Trusted: Coq kernel, '
                  'gen_skeleton.py + allowed_table, extraction, harness.'),
-        'technique': 'Coq proof (state-machine model over oracles, non-interference by two-run simulation) + regenerated exception skeletons + exhaustive fault injection + fuzzing',
+        'technique': 'Coq proof (source translated into a deep-embedded statement language and proved equal to the model by symbolic execution; state-machine model over oracles, non-interference by two-run simulation) + regenerated exception skeletons + exhaustive fault injection + fuzzing',
     }
 
     # ------------------------------------------------------------------ inject cases
